@@ -67,7 +67,8 @@ Record kcase := {
   k_cache : cstate;              (* sealed flags and cached identifiers at that moment *)
   k_ops : list sop;
   k_expect : list sexpect;
-  k_final : heap }.              (* the graph the real objects hold after the history *)
+  k_final : heap;                (* the graph the real objects hold after the history *)
+  k_final_cache : cstate }.      (* sealed flags and cached identifiers after the history *)
 
 Definition check_kcase (c : kcase) : bool :=
   let r := srun sha256 (k_classes c) (hash_fuel (k_heap c) + 64) (k_heap c, k_cache c) (k_ops c) in
@@ -78,3 +79,5 @@ Definition inv_kcase (c : kcase) : bool :=
   ginv_b sha256 (k_classes c) (hash_fuel (k_heap c) + 64) (k_heap c, k_cache c).
 Definition diag_kcase (c : kcase) : list nat :=
   ginv_diag sha256 (k_classes c) (hash_fuel (k_heap c) + 64) (k_heap c, k_cache c).
+Definition diag_kfinal (c : kcase) : list nat :=
+  ginv_diag sha256 (k_classes c) (hash_fuel (k_final c) + 64) (k_final c, k_final_cache c).
